@@ -122,7 +122,7 @@ def check(sid, budget, which):
     d = os.path.join(HERE, 'seeded', sid)
     patch = os.path.join(d, 'patch.diff')
     man = json.load(open(os.path.join(HERE, 'MANIFEST.json')))
-    prop = sid.split('_')[0]
+    prop = sid[:3]
     which = which or [prop]
     assert sh('git -C /repo status --porcelain').stdout.strip() == '', \
         '/repo not clean'
